@@ -314,10 +314,12 @@ def _work(args):
         b.case(('extract', tuple(examples.items()) if isdict else tuple(examples), oi, si, sd))
         # unseeded sampling draws from the global generator: make every case reproducible
         random.seed(repr((tuple(examples), oi, si, sd, seed)))
-        if any(p in props for p in ('C03', 'C13', 'C18')):
-            check_extract(b, rexpy, dict(examples) if isdict else list(examples), o, size, sd, props, dict(w))
-        if 'C14' in props and 'max_patterns' not in o and not isdict:
-            check_determinism(b, rexpy, list(examples), o, size, sd, dict(w))
+        def one_case():
+            if any(p in props for p in ('C03', 'C13', 'C18')):
+                check_extract(b, rexpy, dict(examples) if isdict else list(examples), o, size, sd, props, dict(w))
+            if 'C14' in props and 'max_patterns' not in o and not isdict:
+                check_determinism(b, rexpy, list(examples), o, size, sd, dict(w))
+        b.case_guard(props[0], dict(w), one_case)
     return (b.evaluations, b.distinct, b.samples, b.failures, b.contracts)
 
 
